@@ -1,8 +1,8 @@
-import Driver.Store
+import Driver.Store2
 
 namespace Driver.C20
 
 /-- C20 is decided on the structural (HDF5 graph) model: same driver for C02 C03 C04 C05 C12 C20 -/
-def main : IO Unit := Driver.Store.main
+def main : IO Unit := Driver.Store2.main
 
 end Driver.C20
